@@ -27,7 +27,7 @@ EXPLANATION = 'theorems about the model of the Storage builder and the reported 
 
 
 def scenarios(seed, tier):
-    n = 300 if tier == 'quick' else 3000
+    n = 600 if tier == 'quick' else 3600
     rnd = random.Random(seed * 7919 + 5)
     for i in range(n):
         r1 = random.Random(rnd.getrandbits(48))
